@@ -103,8 +103,10 @@ Definition b_focused (W V : N) : N := 4 * (W * (12 + 3 * V)).
 Definition b_shrunk (w X A : N) : N := w * ((2 + X * (2 + A)) + 2 * (1 + X) * w).
 Definition b_linearized (S : N) : N := S * (5 + 3 * S).
 Definition b_cg (L : N) : N := L * (5 + 2 * L).
-Definition pipeline_ax_bound (p : fcprog) : N :=
-  b_linearized (b_shrunk (b_focused (f_wprog p) (fun_occ p)) (fun_X p) (fun_A p)).
+Definition pipeline_shrunk_bound (p : fcprog) : N := b_shrunk (b_focused (f_wprog p) (fun_occ p)) (fun_X p) (fun_A p).
+Definition pipeline_ax_bound (p : fcprog) : N := b_linearized (pipeline_shrunk_bound p).
+(* units of the back end's cost constant: size(linearized) x (5 + 4 size(shrunk)), Proof/SizeLinWidth.v *)
+Definition pipeline_cg_bound (p : fcprog) : N := pipeline_ax_bound p * (5 + 4 * pipeline_shrunk_bound p).
 
 (* ---------- typed binders: what the occurrences of a checked program refer to ----------
    def_tb d = the parameters of d and the binders of its body (let variables, clause parameters, labels) as
